@@ -989,8 +989,8 @@ class CSSMatch(_DocumentNav):
                 # Abort if our nth index is out of bounds and only getting further out of bounds as we increment.
                 # Otherwise, increment to try to get in bounds.
                 adjust = None
-                while idx < 1 or idx > last_index:
-                    if idx < 0:
+                while idx < 1 or idx > last_index + 1:
+                    if idx < 1:
                         diff_low = 0 - idx
                         if adjust is not None and adjust == 1:
                             break
